@@ -2690,8 +2690,11 @@ def extract_known(fn, ref_fps: List[str]) -> List[Cand]:
                 text = _u(sub, names)
                 for want, ann in wanted:
                     if text == want and _evaluated_first(head, sub):
-                        def f(stmts=stmts, i=i, st=st, sub=sub, ann=ann, k=k):
+                        def f(stmts=stmts, i=i, st=st, sub=sub, ann=ann, k=k, fn=fn):
+                            taken = {x.id for x in ast.walk(fn) if isinstance(x, ast.Name)}
                             tmp = f"_xk{k}"
+                            while tmp in taken:
+                                tmp += "_"
                             ld = L(ast.Name(id=tmp, ctx=ast.Load()), sub)
                             if ann is not None:
                                 asg = L(ast.AnnAssign(target=L(ast.Name(id=tmp, ctx=ast.Store()), sub), annotation=ann, value=sub, simple=1), st)
